@@ -27,6 +27,8 @@ import (
 	"fmt"
 	"io"
 	"log"
+	"os"
+	"path/filepath"
 	"sync"
 
 	"github.com/go-spatial/geom"
@@ -62,8 +64,19 @@ func (c capture) WriteFeatures(in <-chan processing.Feature) {
 
 func main() {
 	log.SetOutput(io.Discard)
+	// work on a copy: merely opening a GeoPackage through the library bumps the SQLite change counter of the file
+	raw, err := os.ReadFile("/repo/example/example.gpkg")
+	if err != nil {
+		panic(err)
+	}
+	dir, _ := os.MkdirTemp("", "sharedcolumns")
+	defer os.RemoveAll(dir)
+	file := filepath.Join(dir, "example.gpkg")
+	if err := os.WriteFile(file, raw, 0o644); err != nil {
+		panic(err)
+	}
 	src := gpkg.SourceGeopackage{}
-	src.Init("/repo/example/example.gpkg")
+	src.Init(file)
 	defer src.Close()
 	for _, tb := range src.GetTableInfo() {
 		if tb.Name != "polygons" {
